@@ -83,3 +83,54 @@ Section IterSpec.
     fst (iter_script b (S (length (kids g p))) rs (iter_new g rs p) script) = pick (wanted_positions b p (kids g p) 0%nat) script.
   Proof. apply iter_script_spec. unfold iter_new. cbn [it_rest]. lia. Qed.
 End IterSpec.
+
+(* what a partly consumed iterator still holds: draining it by further calls of next (= nth 0) yields exactly
+   the items behind the last pick — this is what last / count / len / fold on the rest are computed from *)
+Fixpoint rest_after {A} (items : list A) (script : list nat) : list A :=
+  match script with
+  | [] => items
+  | k :: sc => match skipn k items with [] => rest_after [] sc | _ :: r => rest_after r sc end
+  end.
+
+Lemma pick_nil {A} : forall script, pick (@nil A) script = [].
+Proof. induction script as [|k sc IH]; cbn [pick]; [reflexivity|]. rewrite skipn_nil. exact IH. Qed.
+
+Lemma rest_after_nil {A} : forall script, rest_after (@nil A) script = [].
+Proof. induction script as [|k sc IH]; cbn [rest_after]; [reflexivity|]. rewrite skipn_nil. exact IH. Qed.
+
+Lemma pick_zeros {A} : forall n (items : list A), pick items (repeat 0%nat n) = firstn n items.
+Proof.
+  induction n as [|n IH]; intros items; cbn [repeat pick firstn]; [reflexivity|].
+  cbn [skipn]. destruct items as [|x r]; [rewrite pick_nil; reflexivity|]. rewrite IH. reflexivity.
+Qed.
+
+Theorem pick_then_drain {A} : forall script (items : list A) n,
+  pick items (script ++ repeat 0%nat n) = pick items script ++ firstn n (rest_after items script).
+Proof.
+  induction script as [|k sc IH]; intros items n; cbn [app pick rest_after].
+  - apply pick_zeros.
+  - destruct (skipn k items) as [|x r].
+    + rewrite IH. reflexivity.
+    + rewrite IH. reflexivity.
+Qed.
+
+Lemma rest_after_length {A} : forall script (items : list A), (length (rest_after items script) <= length items)%nat.
+Proof.
+  induction script as [|k sc IH]; intros items; cbn [rest_after]; [lia|].
+  pose proof (skipn_length k items) as L. destruct (skipn k items) as [|x r].
+  - rewrite rest_after_nil. cbn. lia.
+  - specialize (IH r). cbn [length] in L. lia.
+Qed.
+
+Corollary pick_then_drain_all {A} : forall script (items : list A),
+  pick items (script ++ repeat 0%nat (S (length items))) = pick items script ++ rest_after items script.
+Proof.
+  intros script items. rewrite pick_then_drain. rewrite firstn_all2; [reflexivity|].
+  pose proof (rest_after_length script items). lia.
+Qed.
+
+Theorem iter_rest_spec (g : gelem) (b : bool) rs p script :
+  let items := wanted_positions b p (kids g p) 0%nat in
+  fst (iter_script b (S (length (kids g p))) rs (iter_new g rs p) (script ++ repeat 0%nat (S (length items))))
+  = pick items script ++ rest_after items script.
+Proof. cbn zeta. rewrite iter_script_children_spec. apply pick_then_drain_all. Qed.
